@@ -4468,7 +4468,15 @@ func (c *BytecodeCompiler) listOrTuplePattern(typ types.Type, location *position
 		c.emit(location.StartPos.Line, bytecode.UNDEFINED)
 		c.emit(location.StartPos.Line, bytecode.UNDEFINED)
 		c.emitNewArrayList(0, location)
-		restListVar = c.defineLocal(restVariableName, location)
+		switch c.mode {
+		case valuePatternDeclarationBytecodeCompilerMode:
+			restListVar = c.defineLocal(restVariableName, location)
+		default:
+			restListVar = c.defineLocalOverrideCurrentScope(restVariableName, location)
+		}
+		if restListVar == nil {
+			return
+		}
 		c.emitSetLocalNoPop(location.StartPos.Line, restListVar.index)
 		c.emit(location.StartPos.Line, bytecode.POP)
 	}
@@ -4497,7 +4505,7 @@ func (c *BytecodeCompiler) listOrTuplePattern(typ types.Type, location *position
 
 	var lengthVar *bytecodeLocal
 	if elementBeforeRestCount != -1 {
-		lengthVar = c.defineLocal(fmt.Sprintf("#!listPatternLength%d", c.patternNesting), location)
+		lengthVar = c.defineLocalOverrideCurrentScope(fmt.Sprintf("#!listPatternLength%d", c.patternNesting), location)
 		c.emitSetLocalNoPop(location.StartPos.Line, lengthVar.index)
 	}
 
@@ -4532,7 +4540,7 @@ func (c *BytecodeCompiler) listOrTuplePattern(typ types.Type, location *position
 	}
 
 	if elementBeforeRestCount != -1 {
-		iteratorVar := c.defineLocal(fmt.Sprintf("#!listPatternIterator%d", c.patternNesting), location)
+		iteratorVar := c.defineLocalOverrideCurrentScope(fmt.Sprintf("#!listPatternIterator%d", c.patternNesting), location)
 
 		if restVariableName != "" {
 			// adjust the length variable
